@@ -190,6 +190,22 @@ func H_C18_newmodel(v *zzverif.T) {
 			g.Output = append(g.Output, vi)
 		}
 		g.Input = append(g.Input, nil)
+		if v.Has("sparse") && v.CBool("sparse") {
+			// sparse initializers (a field the library may ignore or decode, never crash on): one value with an
+			// arbitrary linearized index, one coordinate-format entry, and holes
+			idx := zzverif.Sym[int64](v, "spidx")
+			co := zzverif.Syms[int64](v, "spco", 2)
+			fv := zzverif.Syms[float32](v, "spv", 1)
+			g.SparseInitializer = []*onnx.SparseTensorProto{
+				{Values: &onnx.TensorProto{Name: "s0", DataType: 1, Dims: []int64{1}, FloatData: append([]float32(nil), fv...)},
+					Indices: &onnx.TensorProto{DataType: 7, Dims: []int64{1}, Int64Data: []int64{idx}}, Dims: []int64{2, 2}},
+				{Values: &onnx.TensorProto{Name: "s1", DataType: 1, Dims: []int64{1}, FloatData: append([]float32(nil), fv...)},
+					Indices: &onnx.TensorProto{DataType: 7, Dims: []int64{1, 2}, Int64Data: append([]int64(nil), co...)}, Dims: []int64{2, 2}},
+				{Values: &onnx.TensorProto{Name: "s2", DataType: 1, Dims: []int64{1}, FloatData: append([]float32(nil), fv...)}, Dims: []int64{3}},
+				{Dims: []int64{2}},
+				nil,
+			}
+		}
 		mp.Graph = g
 	}
 	var m *Model
